@@ -171,7 +171,8 @@ func c14Collisions(c *core.Ctx, rounds int, mix int) {
 			wg.Add(1)
 			go func(i int) {
 				defer wg.Done()
-				for atomic.LoadInt32(&start) == 0 { //nolint:revive // spin barrier
+				for atomic.LoadInt32(&start) == 0 { // spin barrier (yielding: the releasing goroutine needs a CPU too)
+					runtime.Gosched()
 				}
 				switch (i + mix) % 4 {
 				case 0, 1:
